@@ -1,12 +1,15 @@
 //! LZ10 / LZ13 codecs (C08 - C11).  Drives mila's compressors / decompressors and records what they did;
 //! every judgement is made by TLC over spec/LZ.tla (Trace_LZ) or by comparing with what TLC printed (Gen_LZ).
 //!
-//!   inputs  <lz10|lz13> <cases.ndjson>        input families for C08/C09 (exhaustive small + structured, seeded)
+//!   inputs  <lz10|lz13> <cases.ndjson> [streams.ndjson]   input families for C08/C09 (exhaustive small + structured, seeded,
+//!                                             stream-like inputs, and the given spec-generated streams as plain input)
 //!   comp    <cases> <out> [--from k]          isolated: compress + own decompress, one "comp" event per case; the public entry
 //!                                             point is chosen by VERIF_LZ_VIA = direct (LZ10/LZ13CompressionFormat) | enum (CompressionFormat::LZ10/LZ13)
 //!   size    <out.ndjson>                      C10: sizes of compressed periodic / small inputs ("size" events)
 //!   sizeone <fmt> <p> <pk> <n> <out.ndjson>   C10: one periodic size event again (replay)
 //!   deccmp  <cases> <out> [--from k]          isolated: C11 spec->impl, decompress TLC's streams, compare with TLC's verdict
+//!   bigdecgen <cases.ndjson>                  C11: rule-built literal-only streams of 2^16..2^20 bytes (+ truncations) x entry points
+//!   bigdec  <cases> <out> [--from k]          isolated: decompress them; result compared with the pattern repeated to n bytes
 //!   tokgen  <tokens.ndjson>                   C11 spec->impl: seeded random token sequences (encoded and expanded by TLC, Gen_LZ fam "rand")
 //!   fuzzgen <seeds.ndjson> <cases.ndjson>     C11 impl->spec: corruptions of valid streams + random bytes
 //!   declog  <cases> <out> [--from k]          isolated: decompress, one "dec" event per case
@@ -233,13 +236,51 @@ fn big_inputs(fmt: &str, rng: &mut Rng) -> Vec<(String, Vec<u8>, usize)> {
     v
 }
 
-fn cmd_inputs(fmt: &str, path: &str) {
+/// Inputs that look like streams themselves: every header-like start (type byte of a stream / wrapper / stored form,
+/// small 24-bit length) followed by every short tail over {0x00, 'a'} (a zero flag byte and literals, among others),
+/// and the same behind a 0x13 wrapper.  (The compressors' own output fed back in - compress(compress(x)) chains - is
+/// added by the check from the recorded results, so that every call into mila stays inside the isolated worker.)
+fn stream_like_inputs(quick: bool) -> Vec<(String, Vec<u8>)> {
+    let mut v = Vec::new();
+    let mut tails = Vec::new();
+    all_strings(&[0u8, b'a'], if quick { 5 } else { 7 }, &mut tails);
+    for ty in [0x10u8, 0x11, 0x13, 0x00] {
+        for l in 0..=5u8 {
+            for (_, tail) in &tails {
+                let mut x = vec![ty, l, 0, 0];
+                x.extend_from_slice(tail);
+                v.push(("headerlike".to_string(), x));
+            }
+        }
+    }
+    let mut short_tails = Vec::new();
+    all_strings(&[0u8, b'a'], 3, &mut short_tails);
+    for inner in [0x10u8, 0x11] {
+        for l in 0..=3u8 {
+            for (_, tail) in &short_tails {
+                let mut x = vec![0x13, 9, 0, 0, inner, l, 0, 0];
+                x.extend_from_slice(tail);
+                v.push(("headerlike".to_string(), x));
+            }
+        }
+    }
+    v
+}
+
+fn cmd_inputs(fmt: &str, path: &str, extra: Option<&str>) {
     let quick = tier_is_quick();
     let mut rng = Rng::new(seed_from_env() ^ if fmt == "lz10" { 0x10 } else { 0x13 });
     let mut v = Vec::new();
     all_strings(b"ab", if quick { 11 } else { 14 }, &mut v);
     all_strings(b"abc", if quick { 7 } else { 9 }, &mut v);
     v.extend(structured(fmt, &mut rng, quick));
+    v.extend(stream_like_inputs(quick));
+    // streams printed by the specification's generator (Gen_LZ), used as plain input
+    if let Some(extra) = extra {
+        for c in read_ndjson(extra) {
+            v.push(("genstream".to_string(), json_to_bytes(&c["stream"])));
+        }
+    }
     let mut w = NdWriter::create(path);
     for (tag, input) in v {
         w.put(&json!({"fmt": fmt, "tag": tag, "input": bytes_to_json(&input)}));
@@ -464,6 +505,71 @@ fn cmd_deccmp(cases_path: &str, out_path: &str, from: usize) {
     });
 }
 
+/// Literal-only stream by rule: [wrapper] header(type, n) then groups of a zero flag byte and 8 literals taken
+/// cyclically from the 8-byte pattern; `cut` bytes removed from the end.  TLC re-examines the bytes (LZ!IsLitStream).
+fn lit_stream(form: &str, pat: &[u8], n: usize, cut: usize) -> Vec<u8> {
+    let mut s = Vec::with_capacity(n + n / 8 + 16);
+    if form == "wrapped" {
+        s.extend_from_slice(&[0x13, 0x21, 0x43, 0x65]);
+    }
+    s.push(if form == "lz10" { 0x10 } else { 0x11 });
+    s.extend_from_slice(&[(n & 0xFF) as u8, ((n >> 8) & 0xFF) as u8, ((n >> 16) & 0xFF) as u8]);
+    for i in 0..n {
+        if i % 8 == 0 {
+            s.push(0);
+        }
+        s.push(pat[i % pat.len()]);
+    }
+    s.truncate(s.len() - cut);
+    s
+}
+
+fn cmd_bigdecgen(out_path: &str) {
+    let quick = tier_is_quick();
+    let mut rng = Rng::new(seed_from_env() ^ 0xB16);
+    let mut w = NdWriter::create(out_path);
+    // total stream lengths around powers of two between 2^16 and 2^20
+    let mut targets: Vec<usize> = vec![(1 << 16) + 1, (1 << 18) + 1, (1 << 20) + 1];
+    if !quick {
+        targets.extend_from_slice(&[(1 << 16) - 1, 1 << 16, (1 << 17) + 1, (1 << 18) - 1, 1 << 18, (1 << 19) + 1]);
+    }
+    for &target in &targets {
+        for form in ["lz10", "lz11", "wrapped"] {
+            let pat = rng.bytes(8);
+            let overhead = if form == "wrapped" { 8 } else { 4 };
+            // largest n whose stream is not longer than the target
+            let mut n = (target - overhead) * 8 / 9;
+            while overhead + n + (n + 7) / 8 > target {
+                n -= 1;
+            }
+            for cut in [0usize, 1, 9] {
+                for entry in ["lz10", "lz13", "cf10", "cf13"] {
+                    w.put(&json!({"entry": entry, "form": form, "pat": bytes_to_json(&pat), "n": n, "cut": cut}));
+                }
+            }
+        }
+    }
+    w.finish();
+}
+
+fn cmd_bigdec(cases_path: &str, out_path: &str, from: usize) {
+    let cases = read_ndjson(cases_path);
+    run_isolated(&cases, from, out_path, |_, c| {
+        let entry = c["entry"].as_str().unwrap();
+        let pat = json_to_bytes(&c["pat"]);
+        let n = c["n"].as_u64().unwrap() as usize;
+        let stream = lit_stream(c["form"].as_str().unwrap(), &pat, n, c["cut"].as_u64().unwrap() as usize);
+        let res = match decompress(entry, &stream) {
+            Ok(Ok(x)) => json!({"kind": "ok", "same": x == periodic(&pat, n), "len": x.len(), "msg": ""}),
+            Ok(Err(e)) => json!({"kind": "err", "same": false, "len": 0, "msg": e}),
+            Err(p) => json!({"kind": "panic", "same": false, "len": 0, "msg": p}),
+        };
+        // the stream itself is logged once per (form, n, cut): with the first entry point
+        let listed = if entry == "lz10" { bytes_to_json(&stream) } else { json!([]) };
+        json!({"entry": entry, "form": c["form"], "pat": c["pat"], "n": n, "cut": c["cut"], "stream_len": stream.len(), "stream": listed, "res": res})
+    });
+}
+
 /// Random token sequences at the real parameters of a format.  Only the CHOICE of tokens is made here (kind,
 /// length log-uniform over the format's whole range, displacement anywhere in 1..min(produced, 4096)); encoding,
 /// well-formedness and the expected expansion are TLC's (Gen_LZ family "rand").
@@ -615,11 +721,14 @@ fn main() {
     let args: Vec<String> = std::env::args().skip(1).collect();
     let a = &args[..];
     match a.first().map(|s| s.as_str()) {
-        Some("inputs") if a.len() == 3 => cmd_inputs(&a[1], &a[2]),
+        Some("inputs") if a.len() == 3 => cmd_inputs(&a[1], &a[2], None),
+        Some("inputs") if a.len() == 4 => cmd_inputs(&a[1], &a[2], Some(&a[3])),
         Some("comp") if a.len() >= 3 => cmd_comp(&a[1], &a[2], from_arg(a, 3)),
         Some("size") if a.len() == 2 => cmd_size(&a[1]),
         Some("sizeone") if a.len() == 6 => cmd_sizeone(&a[1], a[2].parse().unwrap(), a[3].parse().unwrap(), a[4].parse().unwrap(), &a[5]),
         Some("deccmp") if a.len() >= 3 => cmd_deccmp(&a[1], &a[2], from_arg(a, 3)),
+        Some("bigdecgen") if a.len() == 2 => cmd_bigdecgen(&a[1]),
+        Some("bigdec") if a.len() >= 3 => cmd_bigdec(&a[1], &a[2], from_arg(a, 3)),
         Some("tokgen") if a.len() == 2 => cmd_tokgen(&a[1]),
         Some("fuzzgen") if a.len() == 3 => cmd_fuzzgen(&a[1], &a[2]),
         Some("declog") if a.len() >= 3 => cmd_declog(&a[1], &a[2], from_arg(a, 3)),
